@@ -22,7 +22,9 @@ Inductive ftype :=
 | TEnum (vs : list string)                 (* str-Enum, Literal[...], constr(strip, regex="^(a|b)$") *)
 | TIntC (ge le : option Z)                 (* ConstrainedInt *)
 | TFloatC (ge le : option Q)               (* ConstrainedFloat *)
-| TArr (k : akind)                         (* numpy ndarray of that kind *)
+| TArr (k : akind)                         (* numpy ndarray of that kind, as TypedArray.validate = np.asarray leaves it:
+                                              possibly 0-dimensional (see [Inh]) *)
+| TArrS (k : akind)                        (* ndarray field that a validator reshapes / takes len() of: never 0-d *)
 | TList (t : ftype) (mn mx : option N)     (* List[t] with min_items/max_items *)
 | TListU (t : ftype) (mn mx : option N)    (* a List[t] whose emitted items are pairwise different (not a pydantic
                                               notion: used to state conformance of duplicate-free basis sets) *)
@@ -103,6 +105,9 @@ Inductive Inh (z : bool) (env : env_t) : ftype -> pval -> Prop :=
     (forall x, In x data -> Inh z env (scalar_ty k) x) ->
     (sh = [] -> z = true /\ exists x, data = [x]) ->
     Inh z env (TArr k) (PArr k sh data)
+| I_arrs : forall k sh data,
+    (forall x, In x data -> Inh z env (scalar_ty k) x) -> sh <> [] ->
+    Inh z env (TArrS k) (PArr k sh data)
 | I_list : forall t mn mx l, (forall x, In x l -> Inh z env t x) -> len_ok mn mx (List.length l) = true ->
                              Inh z env (TList t mn mx) (PList l)
 | I_listu : forall t mn mx l, (forall x, In x l -> Inh z env t x) -> len_ok mn mx (List.length l) = true ->
@@ -130,6 +135,25 @@ Definition uniq_field (sites : list (string * string)) (mname : string) (f : fie
   else f.
 Definition uniq_env (sites : list (string * string)) (e : env_t) : env_t :=
   map (fun nm => (fst nm, {| m_extra := m_extra (snd nm); m_fields := map (uniq_field sites (fst nm)) (m_fields (snd nm)) |})) e.
+(** the descriptors with the listed (model, field) ndarray fields declared never 0-dimensional *)
+Definition shape_field (sites : list (string * string)) (mname : string) (f : field) : field :=
+  if existsb (fun p => String.eqb (fst p) mname && String.eqb (snd p) (f_alias f)) sites then
+    match f_type f with
+    | TArr k => {| f_alias := f_alias f; f_required := f_required f; f_nullable := f_nullable f; f_type := TArrS k |}
+    | TList (TArr k) mn mx => {| f_alias := f_alias f; f_required := f_required f; f_nullable := f_nullable f;
+                                 f_type := TList (TArrS k) mn mx |}
+    | _ => f
+    end
+  else f.
+Definition shape_env (sites : list (string * string)) (e : env_t) : env_t :=
+  map (fun nm => (fst nm, {| m_extra := m_extra (snd nm); m_fields := map (shape_field sites (fst nm)) (m_fields (snd nm)) |})) e.
+(** the ndarray-typed fields (directly, or as list items) that are still plain [TArr] *)
+Definition plain_array_fields (e : env_t) : list (string * string) :=
+  flat_map (fun nm => flat_map (fun f => match f_type f with
+                                         | TArr _ | TList (TArr _) _ _ => [(fst nm, f_alias f)]
+                                         | _ => []
+                                         end) (m_fields (snd nm))) e.
+
 (** the four List fields of basis.py that carry "uniqueItems" in the exported schema *)
 Definition basis_unique_sites : list (string * string) :=
   [("ElectronShell", "angular_momentum"); ("ECPPotential", "angular_momentum");
@@ -160,6 +184,10 @@ Fixpoint inhabitsb (n : nat) (z : bool) (env : env_t) (D : ftype) (v : pval) {st
           match k, k' with AFloat, AFloat | AInt, AInt | AStr, AStr | ABool, ABool => true | _, _ => false end &&
           forallb (inhabitsb n' z env (scalar_ty k)) data &&
           match sh with [] => z && match data with [_] => true | _ => false end | _ => true end
+      | TArrS k, PArr k' sh data =>
+          match k, k' with AFloat, AFloat | AInt, AInt | AStr, AStr | ABool, ABool => true | _, _ => false end &&
+          forallb (inhabitsb n' z env (scalar_ty k)) data &&
+          match sh with [] => false | _ => true end
       | TList t mn mx, PList l => forallb (inhabitsb n' z env t) l && len_ok mn mx (List.length l)
       | TListU t mn mx, PList l => forallb (inhabitsb n' z env t) l && len_ok mn mx (List.length l) && uniqueb (map emit l)
       | TTuple ts, PList l => forallb2 (inhabitsb n' z env) ts l
@@ -189,7 +217,7 @@ Definition kind_of (D : ftype) : option jkind :=
   | TInt | TIntC _ _ => Some KInt
   | TFloat | TFloatC _ _ => Some KFlt
   | TBool => Some KBool
-  | TArr _ | TList _ _ _ | TListU _ _ _ | TTuple _ => Some KArr
+  | TArr _ | TArrS _ | TList _ _ _ | TListU _ _ _ | TTuple _ => Some KArr
   | TDict _ | TModel _ => Some KObj
   | TAny | TOpt _ | TUnion _ => None
   end.
@@ -235,7 +263,7 @@ Definition leaf_compat (D : ftype) (k : jkind) (S : schema) : bool :=
   | SMinItems n => match D with
                    | TList _ mn _ | TListU _ mn _ => (n <=? optN0 mn)%N
                    | TTuple ts => (n <=? N.of_nat (List.length ts))%N
-                   | TArr _ => (n =? 0)%N
+                   | TArr _ | TArrS _ => (n =? 0)%N
                    | _ => negb (is_arrk k)
                    end
   | SMaxItems n => match D with
@@ -267,7 +295,10 @@ Definition leaf_compat (D : ftype) (k : jkind) (S : schema) : bool :=
   | _ => false
   end.
 
+Definition is_tarr (D : ftype) : bool := match D with TArr _ => true | _ => false end.
+
 Section Compat.
+Variable z : bool.        (* may a plain [TArr] hold a 0-d array? *)
 Variable env : env_t.
 Variable defs : defs_t.
 
@@ -275,6 +306,10 @@ Fixpoint compat (n : nat) (D : ftype) (S : schema) {struct n} : bool :=
   match n with
   | O => false
   | S n' =>
+      if z && is_tarr D then
+        (* a 0-d array is emitted as its scalar: both shapes of emission must be acceptable *)
+        match D with TArr k => compat n' (TArrS k) S && compat n' (scalar_ty k) S | _ => false end
+      else
       match S with
       | SAll l => forallb (compat n' D) l
       | SRef name => match assoc name defs with Some s => compat n' D s | None => false end
@@ -289,14 +324,14 @@ Fixpoint compat (n : nat) (D : ftype) (S : schema) {struct n} : bool :=
               | SItems s =>
                   match D with
                   | TList t _ _ | TListU t _ _ => compat n' t s
-                  | TArr k => compat n' (scalar_ty k) s
+                  | TArr k | TArrS k => compat n' (scalar_ty k) s
                   | TTuple ts => forallb (fun t => compat n' t s) ts
                   | _ => true
                   end
               | SItemsTuple ss =>
                   match D with
                   | TList t _ _ | TListU t _ _ => forallb (compat n' t) ss
-                  | TArr k => forallb (compat n' (scalar_ty k)) ss
+                  | TArr k | TArrS k => forallb (compat n' (scalar_ty k)) ss
                   | TTuple ts => forallb (fun p => compat n' (fst p) (snd p)) (combine ts ss)
                   | _ => true
                   end
@@ -340,3 +375,167 @@ Fixpoint compat (n : nat) (D : ftype) (S : schema) {struct n} : bool :=
       end
   end.
 End Compat.
+
+(** ** Which schemas FORCE the duplicate-free descriptors (converse of [compat] at the uniqueItems sites) *)
+Definition STrue : schema := SAll [].
+
+Section Enf.
+Variable sites : list (string * string).
+Variable env : env_t.
+Variable defs : defs_t.
+
+(** the conjuncts a schema certainly imposes: SAll and $ref flattened (nothing when the fuel runs out) *)
+Fixpoint members (n : nat) (S : schema) {struct n} : list schema :=
+  match n with
+  | O => []
+  | S n' => match S with
+            | SAll l => flat_map (members n') l
+            | SRef name => match assoc name defs with Some s => members n' s | None => [] end
+            | _ => [S]
+            end
+  end.
+
+Definition is_site (mname alias : string) : bool :=
+  existsb (fun p => String.eqb (fst p) mname && String.eqb (snd p) alias) sites.
+
+Definition find_items (ms : list schema) : schema :=
+  match find (fun s => match s with SItems _ => true | _ => false end) ms with
+  | Some (SItems s) => s
+  | _ => STrue
+  end.
+Definition find_obj (ms : list schema) : list (string * schema) * option schema :=
+  match find (fun s => match s with SObj _ _ => true | _ => false end) ms with
+  | Some (SObj ps ap) => (ps, ap)
+  | _ => ([], None)
+  end.
+Definition find_anyof (ms : list schema) : option (list schema) :=
+  match find (fun s => match s with SAnyOf _ => true | _ => false end) ms with
+  | Some (SAnyOf l) => Some l
+  | _ => None
+  end.
+Definition has_unique (ms : list schema) : bool :=
+  existsb (fun s => match s with SUnique => true | _ => false end) ms.
+(** a conjunct "type": t that no value of kind k satisfies *)
+Definition clashes (k : option jkind) (ms : list schema) : bool :=
+  match k with
+  | Some k => existsb (fun s => match s with SType t => negb (type_ok k t) | _ => false end) ms
+  | None => false
+  end.
+Definition sub_of (o : option schema) : schema := match o with Some s => s | None => STrue end.
+
+(** [enf n D S]: validity against S forces an inhabitant of D (descriptors [env]) to inhabit D under the
+    descriptors with the [sites] declared duplicate-free *)
+Fixpoint enf (n : nat) (D : ftype) (S : schema) {struct n} : bool :=
+  match n with
+  | O => false
+  | S n' =>
+      let ms := members n' S in
+      match D with
+      | TStr | TInt | TFloat | TBool | TAny | TEnum _ | TIntC _ _ | TFloatC _ _ | TArr _ | TArrS _ => true
+      | TList t _ _ => enf n' t (find_items ms)
+      | TListU _ _ _ => false
+      | TTuple ts => forallb (fun t => enf n' t STrue) ts
+      | TDict t => match find_obj ms with
+                   | ([], ap) => enf n' t (sub_of ap)
+                   | _ => enf n' t STrue
+                   end
+      | TOpt t => enf n' t S
+      | TUnion ts =>
+          match find_anyof ms with
+          | Some l => forallb (fun t => forallb (fun s => clashes (kind_of t) (members n' s) || enf n' t s) l) ts
+          | None => forallb (fun t => enf n' t S) ts
+          end
+      | TModel name =>
+          match assoc name env with
+          | None => false
+          | Some m =>
+              let '(ps, ap) := find_obj ms in
+              forallb (fun f =>
+                         let sf := sub_of (entry_schema ps ap (f_alias f)) in
+                         if is_site name (f_alias f) then
+                           match f_type f with
+                           | TList t _ _ => has_unique (members n' sf) && enf n' t (find_items (members n' sf))
+                           | _ => false
+                           end
+                         else enf n' (f_type f) sf) (m_fields m)
+          end
+      end
+  end.
+End Enf.
+
+
+(** ** Diagnostics: where does [compat] fail? *)
+Definition kw_name (S : schema) : string :=
+  match S with
+  | SAll _ => "allOf" | SAnyOf _ => "anyOf" | SRef _ => "$ref" | SType _ => "type" | SEnum _ => "enum"
+  | SPattern _ => "pattern" | SObj _ _ => "properties/additionalProperties" | SRequired _ => "required"
+  | SItems _ => "items" | SItemsTuple _ => "items" | SMinItems _ => "minItems" | SMaxItems _ => "maxItems"
+  | SUnique => "uniqueItems" | SMin _ _ => "minimum" | SMax _ _ => "maximum" | SMultipleOf _ => "multipleOf"
+  end.
+
+Section Diag.
+Variable z : bool.
+Variable env : env_t.
+Variable defs : defs_t.
+
+(** the sub-obligations [compat] descends into (diagnostic only) *)
+Definition children (D : ftype) (S : schema) : list (list string * ftype * schema) :=
+  if z && is_tarr D then
+    match D with TArr k => [(["<array>"], TArrS k, S); (["<0-d array as scalar>"], scalar_ty k, S)] | _ => [] end
+  else
+  match S with
+  | SAll l => map (fun s => ([], D, s)) l
+  | SRef name => match assoc name defs with Some s => [(["#" ++ name], D, s)] | None => [] end
+  | _ =>
+      match D with
+      | TUnion ts => map (fun t => ([], t, S)) ts
+      | TOpt t => [([], t, S)]
+      | _ =>
+          match S with
+          | SAnyOf l => map (fun s => (["anyOf"], D, s)) l
+          | SItems s =>
+              match D with
+              | TList t _ _ | TListU t _ _ => [(["items"], t, s)]
+              | TArr k | TArrS k => [(["items"], scalar_ty k, s)]
+              | TTuple ts => map (fun t => (["items"], t, s)) ts
+              | _ => []
+              end
+          | SItemsTuple ss =>
+              match D with
+              | TList t _ _ | TListU t _ _ => map (fun s => (["items"], t, s)) ss
+              | TArr k | TArrS k => map (fun s => (["items"], scalar_ty k, s)) ss
+              | TTuple ts => map (fun p => (["items"], fst p, snd p)) (combine ts ss)
+              | _ => []
+              end
+          | SObj ps ap =>
+              match D with
+              | TDict t => (map (fun p => ([fst p], t, snd p)) ps ++
+                            match ap with Some s => [(["additionalProperties"], t, s)] | None => [] end)%list
+              | TModel name =>
+                  match assoc name env with
+                  | None => []
+                  | Some m => flat_map (fun f => match entry_schema ps ap (f_alias f) with
+                                                 | Some s => [([f_alias f], f_type f, s)]
+                                                 | None => []
+                                                 end) (m_fields m)
+                  end
+              | _ => []
+              end
+          | _ => []
+          end
+      end
+  end.
+
+(** where [compat] fails: the deepest failing obligations, as schema paths ending in a keyword *)
+Fixpoint incompat (n : nat) (path : list string) (D : ftype) (sch : schema) {struct n} : list (list string) :=
+  if compat z env defs n D sch then []
+  else match n with
+       | O => [(path ++ ["<out of fuel>"])%list]
+       | Datatypes.S n' =>
+           match flat_map (fun c => incompat n' (path ++ fst (fst c))%list (snd (fst c)) (snd c)) (children D sch) with
+           | [] => [(path ++ [kw_name sch])%list]
+           | bad => bad
+           end
+       end.
+
+End Diag.
